@@ -152,6 +152,11 @@ def run(ctx):
                 calls.append(rnd.choice(["decoration_group", "string/61", "ext_inst_import/61", "begin_function/1/-/0/2", "end_function", "begin_block/-", "ret", "variable/1/-/7/-",
                                          "begin_block_no_label/-", "begin_block_no_label/77", "begin_block/88", "function_parameter/1", "undef/1/-", "id",
                                          "pop_instruction", "pop_instruction", "i_add/1/-/2/3", "nop", "select_block/0", "select_function/0"]))
+        if hi % 3 == 0:
+            # continuation from a NON-EMPTY module whose bound is tight (slack 0) or loose: the counter restarts at the header bound —
+            # ids that were reserved but never defined stay reserved, and every later id is above everything handed out before
+            for _ in range(rnd.choice([1, 1, 2])):
+                calls.insert(rnd.randrange(1, len(calls) + 1), "continue:%d" % rnd.choice([0, 0, 1, 5, 100]))
         r = "build " + (f"from:{start} " if start else "") + " ".join(calls)
         reqs.append(r)
         meta[r] = (start or 1, implicit_only)
@@ -224,6 +229,12 @@ def run(ctx):
         r = "build " + " ".join(once + (once if k % 2 == 0 else once[::-1]) + ["id"])
         reqs.append(r)
         meta[r] = (1, True)
+    # ids reserved with `id()` but not (yet) defined by any instruction, then a continuation: the reserved ids are not handed out again
+    for slack in (0, 1, 7):
+        for pre in ("id id", "type_void id id constant_true/1 id", "id begin_function/1/-/0/2 begin_block/- branch/2 end_function id"):
+            r = f"build {pre} continue:{slack} id type_bool id undef/1/- id"
+            reqs.append(r)
+            meta[r] = (1, False)
     # ids handed out are never taken back: an instruction holding the latest id is popped (and possibly re-inserted), then more ids are
     # requested
     for start in (None, 9, 1000):
